@@ -323,6 +323,12 @@ def _managed():
   return s if (s is not None and s.me() is not None) else None
 
 
+def _abandoned():
+  """the calling thread belonged to a scheduler that has ended (deadlock, step limit, run finished): it is let go so
+  that it can run to its end - nothing it does may block any more"""
+  return getattr(_th.current_thread(), '_cosched_ts', None) is not None
+
+
 class CoLock(object):
   """every visible action = [scheduling point][atomic effect + event-log entry]"""
 
@@ -334,6 +340,8 @@ class CoLock(object):
   def acquire(self, blocking=True, timeout=-1):
     s = _managed()
     if s is None:
+      if _abandoned():
+        return True
       got = self._real.acquire(blocking, -1 if timeout is None else timeout)
       if got:
         self.owner = 'unmanaged'
@@ -392,6 +400,8 @@ class CoRLock(object):
   def acquire(self, blocking=True, timeout=-1):
     s = _managed()
     if s is None:
+      if _abandoned():
+        return True
       return self._real.acquire(blocking, -1 if timeout is None else timeout)
     me = s.me()
     if self.owner is me:
@@ -477,6 +487,8 @@ class CoEvent(object):
     if s is None:
       # outside a scheduled run (a worker process that ran scheduled cases before keeps the patched modules): behave as
       # threading.Event does, in real time
+      if _abandoned():
+        return self.flag
       end = None if timeout is None else _time.time() + timeout
       while not self.flag:
         if end is not None and _time.time() >= end:
@@ -836,6 +848,8 @@ def run(choose, body, max_steps=200000, names=None, watchdog_s=30.0, early_timer
         t.wake = None
         t.gate.release()
     SCHED = None
+    # the calling thread goes on to run other cases: it is not an abandoned thread of this scheduler
+    _th.current_thread().__dict__.pop('_cosched_ts', None)
   return box, s
 
 
